@@ -10,6 +10,7 @@ import (
 	"strings"
 
 	anystore "github.com/anyproto/any-store"
+	"github.com/anyproto/any-store/anyenc"
 
 	"github.com/anyproto/any-sync/commonspace/headsync/headstorage"
 	"github.com/anyproto/any-sync/commonspace/object/accountdata"
@@ -39,14 +40,99 @@ func (f *faultStorage) AddAll(ctx context.Context, recs []list.StorageRecord) er
 	return f.Storage.AddAll(ctx, recs)
 }
 
+// dirtyStorage presents the same persisted log — Root, Head, Has, Get (the authoritative PrevId
+// chain) are untouched — through a disturbed order-index scan: leftover / foreign documents in the
+// records collection, a failing index, gaps, duplicates, a wrong order. build() must fall back to
+// the head→root walk and reach the same head and state.
+type dirtyStorage struct {
+	list.Storage
+	mode    string
+	pos     int                // where the disturbance happens (index into the scan)
+	foreign list.StorageRecord // the document that does not belong to the chain
+}
+
+var dirtyModes = []string{"leftover-bad-id", "leftover-garbage", "leftover-after-head", "foreign-valid-record", "index-error", "index-error-midway", "gap", "duplicate", "swapped", "truncated", "empty-scan"}
+
+var errIndex = errors.New("injected: order index unavailable")
+
+func (d *dirtyStorage) GetAfterOrder(ctx context.Context, order int, iter list.StorageIterator) error {
+	var recs []list.StorageRecord
+	if err := d.Storage.GetAfterOrder(ctx, order, func(ctx context.Context, r list.StorageRecord) (bool, error) {
+		recs = append(recs, r)
+		return true, nil
+	}); err != nil {
+		return err
+	}
+	pos := d.pos
+	if pos > len(recs) {
+		pos = len(recs)
+	}
+	ins := func(at int, r list.StorageRecord) {
+		recs = append(recs[:at], append([]list.StorageRecord{r}, recs[at:]...)...)
+	}
+	switch d.mode {
+	case "index-error":
+		return errIndex
+	case "leftover-bad-id", "leftover-garbage", "foreign-valid-record":
+		ins(pos, d.foreign)
+	case "leftover-after-head":
+		recs = append(recs, d.foreign)
+	case "gap":
+		if len(recs) > 2 && pos > 0 && pos < len(recs)-1 {
+			recs = append(recs[:pos], recs[pos+1:]...)
+		}
+	case "duplicate":
+		if pos < len(recs) {
+			ins(pos, recs[pos])
+		}
+	case "swapped":
+		if pos+1 < len(recs) {
+			recs[pos], recs[pos+1] = recs[pos+1], recs[pos]
+		}
+	case "truncated":
+		recs = recs[:pos]
+	case "empty-scan":
+		recs = nil
+	}
+	for i, r := range recs {
+		if d.mode == "index-error-midway" && i == pos {
+			return errIndex
+		}
+		if cont, err := iter(ctx, r); !cont || err != nil {
+			return err
+		}
+	}
+	return nil
+}
+
+// dirty wraps a reopened storage of o in a randomly chosen disturbance.
+func (x *c03) dirty(st list.Storage) *dirtyStorage {
+	r := x.s.r
+	d := &dirtyStorage{Storage: st, mode: dirtyModes[r.Intn(len(dirtyModes))], pos: r.Intn(len(x.w.recs) + 1)}
+	src := x.w.recs[r.Intn(len(x.w.recs))]
+	switch d.mode {
+	case "leftover-bad-id", "leftover-after-head":
+		// a document whose id is not the hash of its bytes
+		d.foreign = list.StorageRecord{RawRecord: src.Payload, Id: src.Id + "leftover", Order: 1000 + d.pos, ChangeSize: len(src.Payload)}
+	case "leftover-garbage":
+		d.foreign = list.StorageRecord{RawRecord: []byte{0xff, 0x00, 0x13, 0x37}, Id: "bafyreigarbage", Order: 1000 + d.pos, ChangeSize: 4}
+	case "foreign-valid-record":
+		// a well-formed, signed record that is simply not part of this chain (another branch)
+		b := x.w.build(r.Intn(nAccounts), r.Intn(len(x.w.recs)), []content{{K: "nop"}}, tamper{})
+		d.foreign = list.StorageRecord{RawRecord: b.raw.Payload, Id: b.raw.Id, Order: 1000 + d.pos, ChangeSize: len(b.raw.Payload)}
+	}
+	return d
+}
+
 type observer struct {
 	name     string
 	keys     *accountdata.AccountKeys
 	validate bool // full validation or network-acceptor verifier
 	l        list.AclList
 	st       list.Storage
-	reopen   func() (list.Storage, error) // fresh Storage object over the same persisted data
-	batch    int                          // >1: records are buffered and fed with AddRawRecords
+	reopen   func() (list.Storage, error)                 // fresh Storage object over the same persisted data
+	litter   func(id string, order int, raw []byte) error // any-store only: put a leftover document into the records collection
+	batch    int                                          // >1: records are buffered and fed with AddRawRecords
 	buf      []*consensusproto.RawRecordWithId
 	fault    *faultStorage
 }
@@ -114,6 +200,20 @@ func (x *c03) dbObserver(name string, keys *accountdata.AccountKeys, validate bo
 	}
 	o := &observer{name: name, keys: keys, validate: validate, batch: batch, st: st}
 	id := x.w.root.Id
+	o.litter = func(docId string, order int, raw []byte) error {
+		coll, err := db.Collection(ctx, id)
+		if err != nil {
+			return err
+		}
+		a := &anyenc.Arena{}
+		v := a.NewObject()
+		v.Set("o", a.NewNumberInt(order))
+		v.Set("r", a.NewBinary(raw))
+		v.Set("sz", a.NewNumberInt(len(raw)))
+		v.Set("id", a.NewString(docId))
+		v.Set("p", a.NewString(""))
+		return coll.Insert(ctx, v)
+	}
 	o.reopen = func() (list.Storage, error) { return list.NewStorage(ctx, id, hs, db) }
 	o.l, err = list.BuildAclListWithIdentity(keys, st, o.verifier(x.w.c))
 	return o, err
@@ -345,10 +445,23 @@ func (x *c03) rebuild(o *observer) {
 		x.violate("rebuild", o.name+": cannot reopen storage: "+err.Error())
 		return
 	}
+	how := "clean"
+	if x.s.r.Chance(60) {
+		d := x.dirty(st)
+		st, how = d, d.mode
+	}
+	x.s.r.Count("c03.rebuild-storage." + how)
+	x.rebuildFrom(o, st, how)
+}
+
+func (x *c03) rebuildFrom(o *observer, st list.Storage, how string) {
 	l2, err := list.BuildAclListWithIdentity(o.keys, st, o.verifier(x.w.c))
 	if err != nil {
-		x.violate("rebuild", fmt.Sprintf("%s: cannot rebuild from storage after %d records: %v", o.name, len(x.w.recs), err))
+		x.violate("rebuild", fmt.Sprintf("%s: cannot rebuild from storage (order-index scan: %s; head and PrevId chain intact) after %d records: %v", o.name, how, len(x.w.recs), err))
 		return
+	}
+	if l2.Head().Id != o.l.Head().Id {
+		x.violate("rebuild", fmt.Sprintf("%s: rebuilt (scan: %s) head is record %d, live head is record %d", o.name, how, x.w.ridx(l2.Head().Id), x.w.ridx(o.l.Head().Id)))
 	}
 	if a, b := x.w.snapshot(l2).String(), x.w.snapshot(o.l).String(); a != b {
 		x.violate("rebuild", fmt.Sprintf("%s: rebuilt from storage %s, live %s", o.name, a, b))
@@ -550,6 +663,29 @@ func (s *session) walkC03(steps int, useDB bool) {
 	}
 	if len(w.recs) > 2 {
 		x.catchUp(x.obs[r.Intn(len(x.obs))], s.c.node, false, 0)
+	}
+	// last, because it damages the persisted collection for good: a leftover document in the real
+	// any-store records collection (id not the hash of its bytes, order beyond the head / unparseable
+	// bytes); head entry and chain are intact, so a restart must still come up in the same state
+	for _, o := range x.obs {
+		if o.litter == nil {
+			continue
+		}
+		src := w.recs[r.Intn(len(w.recs))]
+		raw, what := src.Payload, "leftover-bad-id"
+		if r.Chance(40) {
+			raw, what = []byte{0xff, 0x00, 0x13, 0x37}, "leftover-garbage"
+		}
+		if err := o.litter(src.Id+"leftover", len(w.recs)+5+r.Intn(3), raw); err != nil {
+			r.Fatal("cannot insert a leftover document: " + err.Error())
+		}
+		st, err := o.reopen()
+		if err != nil {
+			x.violate("rebuild", o.name+": cannot reopen storage: "+err.Error())
+			continue
+		}
+		r.Count("c03.rebuild-storage.anystore-" + what)
+		x.rebuildFrom(o, st, "real any-store collection with a "+what+" document")
 	}
 	r.Case("c03\n"+strings.Join(w.lines, "\n"), len(w.recs) > 5)
 }
